@@ -113,7 +113,10 @@ def check_layout(case, stats):
     with open(path, "w", encoding="utf8", newline="") as f:
         f.write(text)
     try:
-        same(case, "T2 loading the document from a file (TokenScanner(path))", base, outcome(None, dflt, scanner=gh.TokenScanner(path)))
+        o2 = outcome(None, dflt, scanner=gh.TokenScanner(path))
+        same(case, "T2 loading the document from a file (TokenScanner(path))", base, o2)
+        if o2["delivered"] != base["delivered"]:
+            raise Violation(case, "T2 loading the document from a file delivers other line tokens than the string: %r vs %r" % (o2["delivered"][-4:], base["delivered"][-4:]))
         if dflt == "en":
             ev = gh.GherkinEvents(gh.GherkinEvents.Options(True, True, True))
             out = list(ev.enum(gh.source_event(path)))
@@ -241,6 +244,9 @@ def unit_corpus(a):
             cases.append({"sub": "layout", "text": t, "label": "corpus:" + n, "choices": [(v * 37 + i * 11 + a["seed"]) % 256 for i in range(24)]})
     for n, t in noisy.length_boundary_documents(False):
         cases.append({"sub": "layout", "text": t, "label": "length-boundary:" + n, "choices": [(len(t) * 7 + i * 13 + a["seed"]) % 256 for i in range(24)]})
+    for t in ["Feature: f\n Scenario: s\n @dangling\n\n\n", "Feature: f\n Scenario: s\n  Given x\n   \"\"\"\n\n\n\n", "Feature: f\n\n\n\n", "\n\n\n", "Feature: f\n @t\n # c\n\n",
+              "Feature: f\n Scenario: s\n  Given x\n   | a |\n\n\n", "garbage\n\n\n"]:
+        cases.append({"sub": "layout", "text": t, "label": "ends-in-blank-lines", "choices": [3] * 24})
     from .c17 import large_sources
     cases.append({"sub": "layout", "text": large_sources()[0], "label": "large-non-ascii-file", "choices": [1] * 24})
     cases.append({"sub": "layout", "text": "\ufeffFeature: bom\n Scenario: s\n  Given x\n", "label": "bom", "choices": [2] * 24})
